@@ -52,6 +52,9 @@ func counterOf(in interface{}) int64 {
 type scenario struct {
 	Backend string     `json:"backend"`
 	Wrapper string     `json:"wrapper"` // bare | prefix | metrics | multi
+	// gossip store only: after this many steps the key is deleted and the deletion marker is left to expire,
+	// while callers may be in the middle of their function (0 = never)
+	DeleteAt int `json:"delete_at,omitempty"`
 	Kinds   [][]string `json:"kinds"`   // per caller, per op: inc | decline | fail | failretry
 	Plan    []int      `json:"plan"`
 	Seed    bool       `json:"precreate"` // key exists before the callers start
@@ -201,6 +204,7 @@ type outcome struct {
 	incomplete    bool
 	mirrorChecked bool
 	rivals        int
+	deletes       int
 }
 
 // execute runs the callers under the schedule: at each step the plan picks among "start a caller not
@@ -230,7 +234,9 @@ func execute(t *testing.T, sc scenario) (out outcome) {
 		type commit struct {
 			caller, op int
 			in         int64
+			epoch      int // number of deletions of the key before the call returned
 		}
+		epoch, epochStart := 0, 0
 		var commits []commit
 		leftover := ""
 		attemptOut := map[string]string{} // value produced by some attempt -> which
@@ -314,7 +320,7 @@ func execute(t *testing.T, sc scenario) (out outcome) {
 				})
 				mu.Lock()
 				if err == nil && wrote {
-					commits = append(commits, commit{c, o, lastIn})
+					commits = append(commits, commit{c, o, lastIn, epoch})
 					committedOut[lastOut] = true
 				} else {
 					notWritten[fmt.Sprintf("op-%d-%d", c, o)] = true
@@ -348,7 +354,7 @@ func execute(t *testing.T, sc scenario) (out outcome) {
 				})
 				mu.Lock()
 				if err == nil {
-					commits = append(commits, commit{90, id, in})
+					commits = append(commits, commit{90, id, in, epoch})
 					committedOut[outS] = true
 					out.rivals++
 				} else {
@@ -376,7 +382,7 @@ func execute(t *testing.T, sc scenario) (out outcome) {
 				return
 			}
 			mu.Lock()
-			n := len(commits)
+			n := len(commits) - epochStart
 			mu.Unlock()
 			if got := counterOf(v); got != int64(n) {
 				mu.Lock()
@@ -432,6 +438,22 @@ func execute(t *testing.T, sc scenario) (out outcome) {
 			}
 			vx.Wait()
 			checkNow(fmt.Sprintf("after step %d", len(out.branching)))
+			if sc.DeleteAt > 0 && len(out.branching) == sc.DeleteAt && out.failure == "" {
+				// the key is deleted and its deletion marker expires and is purged; callers that read the key
+				// before must not succeed with what they computed from the deleted value
+				if err := client.Delete(ctx, "k"); err != nil {
+					fail("Delete: %v", err)
+					return false
+				}
+				time.Sleep(65 * time.Second)
+				vx.Wait()
+				mu.Lock()
+				epoch++
+				epochStart = len(commits)
+				mu.Unlock()
+				out.deletes++
+				checkNow(fmt.Sprintf("after the deletion following step %d", len(out.branching)))
+			}
 			return out.failure == ""
 		}
 		for _, a := range sc.Plan {
@@ -459,11 +481,28 @@ func execute(t *testing.T, sc scenario) (out outcome) {
 		}
 		final := ring.GetOrCreateRingDesc(v)
 		// chain oracle
-		sort.Slice(commits, func(a, b int) bool { return commits[a].in < commits[b].in })
 		out.commits = len(commits)
+		for ep := 0; ep < epoch; ep++ {
+			// calls that returned before a deletion of the key: a chain of their own
+			var old []commit
+			for _, c := range commits {
+				if c.epoch == ep {
+					old = append(old, c)
+				}
+			}
+			sort.Slice(old, func(a, b int) bool { return old[a].in < old[b].in })
+			for i, c := range old {
+				if c.in != int64(i) {
+					fail("lost or phantom update before deletion %d of the key: the successful calls saw the inputs %v (sorted), want each of 0..%d exactly once", ep+1, old, len(old)-1)
+					return
+				}
+			}
+		}
+		commits = commits[epochStart:]
+		sort.Slice(commits, func(a, b int) bool { return commits[a].in < commits[b].in })
 		for i, c := range commits {
 			if c.in != int64(i) {
-				fail("lost or phantom update: the successful calls saw the inputs %v (sorted), want each of 0..%d exactly once; final value %v", commits, len(commits)-1, names(final))
+				fail("lost or phantom update: the successful calls (since the last deletion of the key, if any) saw the inputs %v (sorted), want each of 0..%d exactly once; final value %v", commits, len(commits)-1, names(final))
 				return
 			}
 		}
@@ -484,7 +523,7 @@ func execute(t *testing.T, sc scenario) (out outcome) {
 		if len(commits) > 0 {
 			want++ // the counter entry
 		}
-		if sc.Seed {
+		if sc.Seed && epoch == 0 {
 			want++
 		}
 		if len(final.Ingesters) != want {
@@ -536,10 +575,18 @@ func TestCASSchedulesRapid(t *testing.T) {
 			sc.Kinds = append(sc.Kinds, ks)
 		}
 		sc.Plan = rapid.SliceOfN(rapid.IntRange(0, 1000), 5, 120).Draw(rt, "plan")
+		if sc.Backend == "memberlist" && !strings.HasPrefix(sc.Wrapper, "multi") {
+			if d := rapid.IntRange(-6, 14).Draw(rt, "deleteAfterStep"); d > 0 {
+				sc.DeleteAt = d
+			}
+		}
 		out := execute(t, sc)
 		vx.Eval(1)
 		vx.Class("backend_"+sc.Backend, 1)
 		vx.Class("wrapper_"+sc.Wrapper, 1)
+		if out.deletes > 0 {
+			vx.Class("schedules_with_the_key_deleted_and_purged_in_between", 1)
+		}
 		if out.rivals > 0 {
 			vx.Class("schedules_with_rival_writes_on_a_primary_switched_at_run_time", 1)
 		}
